@@ -64,7 +64,7 @@ func NewDNSMsg(id, flags uint16) *DNSMsg { return &DNSMsg{ID: id, Flags: flags, 
 type DNSBuilder struct {
 	Compress bool
 	buf      []byte
-	offs     map[string]int // lower-case suffix -> offset
+	offs     map[string]int // suffix -> offset
 }
 
 func splitName(n string) []string {
@@ -78,7 +78,7 @@ func splitName(n string) []string {
 func (b *DNSBuilder) name(n string) {
 	labels := splitName(n)
 	for i := range labels {
-		suffix := strings.ToLower(strings.Join(labels[i:], "."))
+		suffix := strings.Join(labels[i:], ".") // exact case: the builder input is the ground truth
 		if b.Compress {
 			if off, ok := b.offs[suffix]; ok && off < 0x3fff {
 				b.buf = append(b.buf, 0xc0|byte(off>>8), byte(off))
